@@ -3,7 +3,7 @@
    and an honest client / server pair that completes the handshake in the model with it, both sides releasing the
    same traffic secrets. *)
 From AQ Require Import lib.Base gen.TlsDispatch model.TlsSymbolic proofs.TlsDispatchLegal.
-From AQ Require Import proofs.TlsSymbolicP1 proofs.TlsSymbolicP2.
+From AQ Require Import proofs.TlsSymbolicP1 proofs.TlsSymbolicP2 proofs.TlsSymbolicP4.
 
 Definition ideal_crypto (O : oracles) : Prop :=
   (forall a x y, o_hash O a x = o_hash O a y -> x = y) /\
@@ -31,6 +31,22 @@ Lemma transcript_agreement_server_x : forall O, ideal_crypto O ->
     m = o_build_fin O (ks_finished O kC eC) ->
     k_tr (the_ks s0) = k_tr kC /\ k_alg (the_ks s0) = k_alg kC /\ t_dec s0 = eC.
 Proof. intros O (A & B & C & D). apply transcript_agreement_server_lemma; assumption. Qed.
+
+Lemma transcript_agreement_run_x : forall O, ideal_crypto O ->
+  forall sc ss chm ss' outS,
+  server_handle_hello O sc ss chm = (OOk, ss', outS) ->
+  exists finm kF eS cS keys0,
+    In (EP_HANDSHAKE, finm) outS /\ server_after O ss' keys0 kF eS cS finm /\
+    forall cc ms cs' outC,
+      let cs := run O cc (client_started O cc) ms in
+      t_state cs = CLIENT_EXPECT_FINISHED ->
+      client_handle_finished O cc cs finm = (OOk, cs', outC) ->
+      k_tr (the_ks cs) = k_tr kF /\ k_alg (the_ks cs) = k_alg kF /\ t_dec cs = eS /\
+      exists a b,
+        t_keys cs' = t_keys cs ++
+          [(DIR_DECRYPT, EP_ONE_RTT, a, ks_derive O (ks_extract O (ks_update kF finm) None) L_s_ap_traffic);
+           (DIR_ENCRYPT, EP_ONE_RTT, b, ks_derive O (ks_extract O (ks_update kF finm) None) L_c_ap_traffic)].
+Proof. intros O (A & B & C & D). apply transcript_agreement_run_lemma; assumption. Qed.
 
 Lemma tamper_detected_x : forall O, ideal_crypto O ->
   forall c pre m m' post post', framed m -> framed m' -> m <> m' ->
